@@ -77,12 +77,20 @@ def s4_ids(fname, cwd, after=None, before=None, style="utc"):
     return ids, r, args + [fname]
 
 
-def patch_ties(blob, recs):
+def patch_ties(blob, recs, submilli=False):
     """copy the FILETIME of one record onto later ones (different positions, incl. across the out-of-order record) and
-    recompute the chunk's record-data CRC32 and header CRC32"""
+    recompute the chunk's record-data CRC32 and header CRC32. submilli: instead, make adjacent records disordered INSIDE
+    one millisecond (+700 us stored before +200 us, +999.9 us before +0.1 us) and across a millisecond edge"""
     b = bytearray(blob)
     n = len(recs)
-    groups = [(5, 6), (40, 41, 42), (n - 3, n - 1), (100, 50)]
+    if submilli:
+        for k, (d1, d2) in ((4, (7000, 2000)), (20, (9999, 1)), (33, (10001, 9999)), (n - 2, (5000, 4999))):
+            if k + 1 >= n or k < 0:
+                continue
+            base = recs[k][1] - recs[k][1] % 10000
+            struct.pack_into("<Q", b, recs[k][2] + 16, base + d1)
+            struct.pack_into("<Q", b, recs[k + 1][2] + 16, base + d2)
+    groups = [(5, 6), (40, 41, 42), (n - 3, n - 1), (100, 50)] if not submilli else []
     for g in groups:
         if max(g) >= n:
             continue
@@ -110,6 +118,8 @@ def files(work, tier):
         recs = dump_records(blob)
         common.write_file(os.path.join(work, "ties.evtx"), patch_ties(blob, recs))
         out.append(("ties", "ties.evtx"))
+        common.write_file(os.path.join(work, "submilli.evtx"), patch_ties(blob, recs, submilli=True))
+        out.append(("submilli", "submilli.evtx"))
     p = samples.evtx(work, "noevents")
     if p:
         out.append(("noevents", "noevents.evtx"))
@@ -151,6 +161,13 @@ def window_leg(res, tier, prop, work=None):
             wins = [(a, None, "utc") for a in allb] + [(None, b, "utc") for b in allb]
             pairs = bs[:: max(1, len(bs) // (6 if tier == "quick" else 30))]
             wins += [(a, b, "utc") for a in pairs for b in pairs if a <= b]
+            # two-sided windows whose bounds are exactly record times: [t,t], [previous t, t], [t-1, t], [t, t+1]
+            exact = sorted(set(ft_to_us(ft) for _, ft, _ in recs))
+            exact = exact if tier == "thorough" else exact[:: max(1, len(exact) // 12)] + exact[-1:]
+            for i, t in enumerate(exact):
+                wins += [(t, t, "utc"), (t - 1, t, "utc"), (t, t + 1, "utc")]
+                if i:
+                    wins.append((exact[i - 1], t, "utc"))
             # the same bounds written with a non-zero offset, and zone-less under a non-zero --tz-offset
             for st in ("off", "naive"):
                 sub = bs if tier == "thorough" else bs[::3]
